@@ -9,6 +9,7 @@ import (
 	"os"
 
 	"github.com/spf13/cobra"
+	"github.com/spf13/pflag"
 )
 
 // H09.default-transform: the default client-side transform (the file itself)
@@ -60,6 +61,14 @@ func VH_C09_FlagsSurviveTheRequest() {
 		vhFlagOther.Flags().Bool("only-for-other", false, "")
 		Register(vhFlagSigner)
 		Register(vhFlagOther)
+	}
+	// pflag.Flag objects are shared between the signer and every command
+	// they are merged into: undo what an earlier run in this process set
+	for _, fs := range []*pflag.FlagSet{vhFlagSigner.Flags(), vhFlagOther.Flags()} {
+		fs.VisitAll(func(f *pflag.Flag) {
+			f.Value.Set(f.DefValue)
+			f.Changed = false
+		})
 	}
 	s := vhFlagSigner
 	cmd := &cobra.Command{Use: "sign"}
